@@ -101,8 +101,20 @@ impl Tracker {
     }
 }
 
+/// relocation kind of a random history: copy 3/8, two views 4/8, two views with decoy 1/8 (the
+/// decoy costs two mmap calls per switch)
+pub fn mem_kind(sel: u8) -> u8 {
+    match sel % 8 {
+        0..=2 => mem::KIND_COPY,
+        3..=6 => mem::KIND_VIEWS,
+        _ => mem::KIND_VIEWS_DECOY,
+    }
+}
+
 /// relocation mask of a random history: density selector + one byte per op
-pub fn mask(density: u8, bytes: &[u8]) -> Vec<bool> {
+pub fn mask(mem_kind: u8, density: u8, bytes: &[u8]) -> Vec<bool> {
+    // switching to a decoy view costs two mmap calls: at most every 8th op on average
+    let density = if mem_kind == mem::KIND_VIEWS_DECOY { 2 + density % 2 } else { density };
     let threshold: u16 = match density % 5 {
         0 => 256,
         1 => 128,
